@@ -102,7 +102,10 @@ func (e *Explorer) explore(prefix []int, level int, parent *Result) {
 					if lo < 0 {
 						lo = 0
 					}
-					e.Diverged += fmt.Sprintf("\nparent and child traces differ at step %d: parent %s child %s\ncontext: %v\nparent log: %v\nchild log: %v\nPARENT TRACE: %v\nCHILD TRACE: %v", j, a[j], b[j], a[lo:j], parent.Log, x.Log, a, b)
+					e.Diverged += fmt.Sprintf("\nparent and child traces differ at step %d: parent %s child %s\ncontext: %v\nparent log: %v\nchild log: %v\nparent goes on: %v\nchild goes on: %v", j, a[j], b[j], a[lo:j], parent.Log, x.Log, a[j:min(len(a), j+12)], b[j:min(len(b), j+12)])
+					if os.Getenv("VERIF_TRACE") == "full" {
+						e.Diverged += fmt.Sprintf("\nPARENT TRACE: %v\nCHILD TRACE: %v", a, b)
+					}
 					break
 				}
 			}
